@@ -99,6 +99,25 @@ func OpenStoreRoots(env *Env, cfg Config, roots []cid.Cid) (st Store, err error)
 			return nil, err
 		}
 		return &scStore{sc: sc}, nil
+	case "sc-nt", "sw-nt":
+		// the same writers over a target that has no Truncate method
+		d := env.Disk()
+		if d == nil {
+			d = sim.NewDisk(env.Path)
+			env.FS.Disks[env.Path] = d
+		}
+		if cfg.Store == "sc-nt" {
+			sc, err := storage.NewReadableWritable(sim.NewFileNT(d), roots, cfg.Options()...)
+			if err != nil {
+				return nil, err
+			}
+			return &scStore{sc: sc}, nil
+		}
+		w, err := storage.NewWritable(sim.NewFileNT(d), roots, cfg.Options()...)
+		if err != nil {
+			return nil, err
+		}
+		return &swStore{w: w}, nil
 	case "sw":
 		d := env.Disk()
 		if d == nil {
